@@ -14,5 +14,6 @@ CBStep(s, e) ==
                         /\ e.count = IF r.fwd THEN 1 ELSE 0}}   \* downstream invoked exactly once
 
 VARIABLES l, poss, cur, failed, skip
-INSTANCE TraceLoop WITH InitStates <- CBInit, Step <- CBStep
+NoOne(e) == ""
+INSTANCE TraceLoop WITH InitStates <- CBInit, Step <- CBStep, One <- NoOne
 =============================================================================
